@@ -89,11 +89,11 @@ theorem louvainDirLoop_labels (W : RMat n) (s γ : ℚ) :
           obtain ⟨i, hi, hr⟩ := h2 a ha
           obtain ⟨v, hv⟩ := hci.2 i.val hi
           exact ⟨v, by show (labOf m' (labOf L.ci v)).val = a; rw [Fin.ext hv]; exact hr⟩
-        by_cases hstop : qTraceDot (aggA W m' L.nh) s γ - L.qprev < thr
+        by_cases hstop : (L.hasPrev && decide (qTraceDot (aggA W m' L.nh) s γ - L.qprev < thr)) = true
         · simp only [hstop, if_true] at h
           cases h
           exact hacc
-        · simp only [hstop, if_false] at h
+        · simp only [hstop] at h
           refine ih _ _ _ _ hci' ?_ h
           intro p hp'
           rcases List.mem_cons.mp hp' with rfl | hp'
@@ -114,7 +114,7 @@ theorem louvainDir_labels (W : RMat n) (γ : ℚ) (ds : List ℕ) (out : Out n)
     simp only at h
     cases h
     have := louvainDirLoop_labels W (total W) γ _ _ _ _ _ (by simpa [lv0] using CiInv_idLab (n := n))
-      (by intro p hp; simp only [lv0, List.mem_singleton] at hp; subst hp; exact CiInv_idLab.exact) hl
+      (by intro p hp; simp [lv0] at hp) hl
     intro p hp
     exact this p (List.mem_reverse.mp hp)
 
@@ -142,11 +142,11 @@ theorem louvainDirLoop_suffix (W : RMat n) (s γ : ℚ) :
       · simp only [hst] at h
         obtain ⟨m', hm', _⟩ := toLab_ok (labFnA x.m L.nh)
         simp only [hm'] at h
-        by_cases hstop : qTraceDot (aggA W m' L.nh) s γ - L.qprev < thr
+        by_cases hstop : (L.hasPrev && decide (qTraceDot (aggA W m' L.nh) s γ - L.qprev < thr)) = true
         · simp only [hstop, if_true] at h
           cases h
           exact ⟨[], rfl⟩
-        · simp only [hstop, if_false] at h
+        · simp only [hstop] at h
           obtain ⟨ext, he⟩ := ih _ _ _ _ h
           exact ⟨ext ++ [(compose L.ci m', qTraceDot (aggA W m' L.nh) s γ)], by rw [he]; simp⟩
 
@@ -167,11 +167,11 @@ theorem compose_idLab (m : Lab n) : labOf (compose (idLab n) m) = labOf m := by
   rw [labOf_compose, labOf_idLab]; rfl
 
 /-- **first level of `modularity_louvain_dir`** — although later levels are computed on the wrong matrix (D6),
-the first hierarchy level (`out.levels[1]`, after the sentinel) reports exactly the directed modularity of
+the first hierarchy level (`out.levels[0]`) reports exactly the directed modularity of
 its partition, for every (also asymmetric) `W`. -/
 theorem louvainDir_level1 (W : RMat n) (γ : ℚ) (ds : List ℕ) (out : Out n)
     (h : louvainDir W γ ds g0 = .ok out) :
-    ∀ p, out.levels[1]? = some p → p.2 = Qdir W γ (labOf p.1) := by
+    ∀ p, out.levels[0]? = some p → p.2 = Qdir W γ (labOf p.1) := by
   unfold louvainDir at h
   simp only [bind, Except.bind, pure, Except.pure] at h
   split_ifs at h with hs0
@@ -198,7 +198,7 @@ theorem louvainDir_level1 (W : RMat n) (γ : ℚ) (ds : List ℕ) (out : Out n)
       · simp only [hst] at hl
         obtain ⟨m', hm', _⟩ := toLab_ok (labFnA x.m (lv0 n g0).nh)
         simp only [hm'] at hl
-        by_cases hstop : qTraceDot (aggA W m' (lv0 n g0).nh) (total W) γ - (lv0 n g0).qprev < thr
+        by_cases hstop : ((lv0 n g0).hasPrev && decide (qTraceDot (aggA W m' (lv0 n g0).nh) (total W) γ - (lv0 n g0).qprev < thr)) = true
         · simp only [hstop, if_true, Except.ok.injEq, Prod.mk.injEq] at hl
           obtain ⟨rfl, _⟩ := hl
           intro p hp'; simp [lv0] at hp'
@@ -206,8 +206,7 @@ theorem louvainDir_level1 (W : RMat n) (γ : ℚ) (ds : List ℕ) (out : Out n)
           obtain ⟨ext, he⟩ := louvainDirLoop_suffix W (total W) γ _ _ _ _ _ hl
           intro p hp'
           simp only [he, List.reverse_append, List.reverse_cons, lv0, List.reverse_nil, List.nil_append,
-            List.append_assoc, List.cons_append] at hp'
-          simp only [List.getElem?_cons_succ, List.getElem?_cons_zero, Option.some.injEq] at hp'
+            List.append_assoc, List.cons_append, List.getElem?_cons_zero, Option.some.injEq] at hp'
           subst hp'
           simp only
           have hnh : (lv0 n g0).nh = n := rfl
